@@ -329,6 +329,100 @@ def check_C02(v, tier, seed):
     return cov
 
 
+def oracle_clean_error(c):
+    """C10: under an injected fault the operation ends with an error or a tolerated result; no panic,
+    nothing leaked, nothing changed outside the root, no success for work not done."""
+    if c.res[:1] == ["panic"]:
+        return "the operation panicked under an injected fault"
+    if c.fdt and c.fdt != ["same"]:
+        return "descriptor table changed across the call: " + " ".join(c.fdt)
+    for t in c.extra.get("outside", []):
+        if t and t[0] != "same":
+            return "something outside the root changed"
+    f = c.extra.get("fault", [[]])[0]
+    fkv = dict(t.split("=", 1) for t in f[1:] if "=" in t)
+    # an injected ENOENT is indistinguishable, for the library, from "somebody else already removed it", which
+    # remove_all tolerates by design (C13); the post-condition is not demanded for that pair
+    tolerated = c.op[:1] == ["remove_all"] and fkv.get("errno") == "2"
+    for t in c.extra.get("post", []):
+        if t and t[0] == "BAD" and not tolerated:
+            return "success reported for work that was not done: " + " ".join(t[1:])
+    if f[:1] == ["always_eagain"] and c.cfg.get("backend") == "k" and c.res[:1] == ["ok"]:
+        return "openat2 reported EAGAIN on every call and the lookup still succeeded"
+    return None
+
+
+def check_C10(v, tier, seed):
+    n = sizes(tier, 40, 400)
+    per = sizes(tier, 150, 500)
+    runs = [Run("C10-fault", ["fault", "--seed", str(seed), "--n", str(n), "--per-case", str(per)]),
+            Run("C10-fault-enosys", ["fault", "--seed", str(seed + 15485863), "--n", str(max(n // 3, 10)),
+                                     "--per-case", str(per), "--no-openat2"])]
+    concrete = run_oracle_cases(v, runs, oracle_clean_error, "an injected system-call failure did not yield a clean error")
+    broken = generic_tie(v, runs, concrete)
+
+    def key(c):
+        h = hashlib.sha1()
+        h.update(" ".join(c.op).encode())
+        h.update(repr(c.tree).encode())
+        h.update(repr(c.extra.get("fault")).encode())
+        h.update(c.cfg.get("backend", "").encode())
+        return h.hexdigest()
+    cov = coverage_of(runs, key=key, nontrivial=lambda c: len(c.events) >= 2)
+    cov["rule"] = ("cases are (tree, operation, backend, fault) tuples: fault = (index k of the unperturbed syscall trace, errno of a "
+                   "12-entry catalogue) | descriptor exhaustion from k | every in-root openat2 answers EAGAIN; the interposer fails the "
+                   "call below the wrapper without entering the kernel; distinct = distinct tuples; non-trivial = at least 2 calls")
+    cov["tie_mismatches"] = broken
+    kinds, errnos, failed_calls = {}, {}, {}
+    for r in runs:
+        for c in r.cases:
+            f = c.extra.get("fault", [["none"]])[0]
+            kinds[f[0]] = kinds.get(f[0], 0) + 1
+            kv = dict(t.split("=", 1) for t in f[1:] if "=" in t)
+            if "errno" in kv:
+                errnos[kv["errno"]] = errnos.get(kv["errno"], 0) + 1
+            if f[0] == "single" and "at" in kv:
+                k = int(kv["at"])
+                if k < len(c.events):
+                    name = c.events[k][0][0]
+                    failed_calls[name] = failed_calls.get(name, 0) + 1
+    cov["fault_kinds"] = kinds
+    cov["errno_distribution"] = errnos
+    cov["failed_call_kinds"] = failed_calls
+
+    # first use of the library in a fresh process, under single faults and descriptor exhaustion
+    init = {"runs": 0, "panics": 0, "killed": 0, "first_ok": 0, "first_err": 0, "retried_ok_after_failed_init": 0}
+    for label, extra in (("openat2", []), ("enosys", ["--no-openat2"])):
+        if tier != "thorough" and label == "enosys":
+            continue
+        out = os.path.join(CACHE, "runs", f"C10-fault-init-{label}.txt")
+        run_harness(["fault-init"] + extra, out)
+        for line in open(out):
+            t = line.split()
+            if len(t) < 3 or t[0] != "init" or t[1] == "base":
+                continue
+            init["runs"] += 1
+            bad = None
+            if "PANIC" in t:
+                init["panics"] += 1
+                bad = "panic during first use"
+            elif t[2:3] and ("KILLED" in t or any(x.startswith("NOOUTPUT") for x in t)):
+                init["killed"] += 1
+                bad = "process died during first use"
+            if any(x == "first=ok" for x in t):
+                init["first_ok"] += 1
+            else:
+                init["first_err"] += 1
+                if any(x == "second=ok" for x in t):
+                    init["retried_ok_after_failed_init"] += 1
+            if bad:
+                facts = {"kind": "oracle", "oracle": bad, "suite": "fault-init", "line": line.strip()[:300]}
+                v.fail(facts, {"why": "first-use initialisation under an injected fault: " + bad, "case": {"line": line.strip()}})
+    cov["first_use_initialisation"] = init
+    cov["evaluations"] += init["runs"]
+    return cov
+
+
 def check_C03(v, tier, seed):
     runs = root_runs("C03", tier, seed, "mutating", 1500, 30000)
     concrete = run_oracle_cases(v, runs, oracle_outside_untouched, "a mutating operation changed something outside the root")
@@ -1010,6 +1104,7 @@ PROPS = {
     "C18": check_C18,
     "C17": check_C17,
     "C02": check_C02,
+    "C10": check_C10,
 }
 
 
